@@ -15,9 +15,11 @@ LEVEL_TEXT = ('Lean theorems, for all inputs (induction, no bound on lengths or 
               'alignment and are attained. SCORE CLAUSES, for the aligner with proposed_fixes/c09-aligner.diff applied: '
               'sw_score_is_optimum (reported score = optimum over all local alignments), sw_score_of_returned_rows (the returned '
               'rows score exactly the reported score when it is positive), sw_optimal (C09\'s two score clauses at full '
-              'strength, built-in matrices or any match/mismatch, any gapopen <= gapextend < 0), sw_score_attained. For the '
+              'strength, built-in matrices or any match/mismatch, any gapopen <= gapextend < 0), sw_score_attained, '
+              'sw_never_panics. For the '
               'aligner AS SHIPPED these clauses are false: kernel-checked counter-examples in Props/C09.lean, reproduced on the '
-              'real code by this check (known findings sw-border-max, sw-border-trace, sw-maxa-init, sw-empty-panic). Tie to /repo: '
+              'real code by this check (known findings sw-border-max, sw-border-trace, sw-maxa-init, sw-empty-panic; plus sw-stop-codon-alphabet in '
+              'NewPwAligner, outside the score clauses). Tie to /repo: '
               'T1 regenerated DNAfull/BLOSUM62 tables and index maps; T4 correspondence of the Int model (variant selected by '
               'probing the linked library) with the implementation on every generated case, on which the oracle also evaluates '
               'the whole C09 predicate with the independent Gotoh program (and enumeration for tiny inputs): all pairs up to '
@@ -26,7 +28,8 @@ LEVEL_TEXT = ('Lean theorems, for all inputs (induction, no bound on lengths or 
 LEVEL_NOTE = ('Trusted: Lean kernel; tools/extract for the DNAfull/BLOSUM62 tables and index maps; harness and driver; the Int '
               '(x den) reading of the float64 code, exact for dyadic scores below 2^52 (Model.SW.DyadicScheme, outside which the '
               'verdict is n/a); the hand-written model of fillMatrix_SW/backTrack_SW is tied to the Go code by correspondence '
-              'only; the variant of the model (shipped / repaired) is selected by probing the linked library with "A" vs "A".')
+              'only; the variant of the model (border logic shipped / repaired, alphabet choice shipped / repaired) is selected by '
+              'probing the linked library with "A" vs "A" and "A*" vs "A*".')
 TECHNIQUE = ('Lean 4 proof (induction over trace-back steps, column lists, suffix tables and reversed-prefix tables; Gotoh '
              'optimality via an exhaustive-search recursion and reversal symmetry) + differential correspondence with an '
              'integer model of the float code + independent Gotoh / enumeration oracle evaluated on the real output')
@@ -35,15 +38,16 @@ REQUIRED_THEOREMS = ["Gv.Props.C09." + n for n in [
     "sw_valid", "sw_align_valid", "gapLen_bounds", "fill_best_in_range", "gap_not_in_index_maps",
     "index_maps_in_range", "sw_rows_denote_local_alignment", "enum_complete", "enum_optimal",
     "gotoh_upper_bound", "gotoh_attained", "gotoh_eq_enum", "sw_score_is_optimum",
-    "sw_score_of_returned_rows", "sw_optimal", "sw_score_attained"]]
+    "sw_score_of_returned_rows", "sw_optimal", "sw_score_attained", "sw_never_panics"]]
 PARTIAL = ["sw_optimal, sw_score_is_optimum, sw_score_of_returned_rows are theorems about the REPAIRED aligner (model variant "
            "fixed=true, proposed_fixes/c09-aligner.diff); for the aligner as shipped they are false (counter-examples in "
            "Props/C09.lean; known findings) and only the validity theorems apply",
            "`the input sequences are left unmodified` is established by observation on every generated case (the harness "
            "compares the caller's Sequence objects before and after), not by a theorem: the T3 mutation-facts extractor "
            "planned in DESIGN.md does not exist",
-           "that Alignment() neither panics nor errors on non-empty sequences over the matrix alphabet is established by "
-           "correspondence only (the model returns `panic` exactly where the Go code indexes out of range)"]
+           "sw_never_panics (no index out of range, for all inputs) is a theorem about the repaired aligner; for the aligner "
+           "as shipped the model returns `panic` exactly where the Go code indexes out of range (empty sequences: known "
+           "finding sw-empty-panic), which is tied to the code by correspondence only"]
 TRUSTED = ["float64 arithmetic of aligner.go is exact on dyadic scores (DyadicScheme); generators only produce such scores"]
 ASSUMPTIONS = ["scores are integer multiples of 1/den, den a power of two, (|s1|+|s2|+2)*max|score| < 2^52",
                "residues are printable ASCII; a returned error (foreign residue, incompatible alphabets, empty sequence in the "
@@ -183,6 +187,17 @@ def gen(rng, tier):
         for si in (1, 3, 4):
             for (s1, s2) in sorted(seen):
                 yield sw_case("mm", SCHEMES[si], s1, s2, "exh5-mod-renaming-scheme%d" % si)
+    if thorough:
+        six = list(all_seqs("ACG", 6, 6))
+        upto6 = list(all_seqs("ACG", 6))
+        seen6 = set()
+        for s1 in six:
+            for s2 in upto6:
+                seen6.add(canonical_pair(s1, s2))
+                seen6.add(canonical_pair(s2, s1))
+        for si in (2, 5):
+            for (s1, s2) in sorted(seen6):
+                yield sw_case("mm", SCHEMES[si], s1, s2, "exh6-mod-renaming-scheme%d" % si)
     # ---- exhaustive, built-in matrices ---------------------------------------------------
     dna = list(all_seqs("ACGTN", 3))
     for gi, (go, ge) in enumerate(GAPS):
@@ -195,7 +210,7 @@ def gen(rng, tier):
             for s2 in prot:
                 yield sw_case("mat", ("d", "d", go, ge), s1, s2, "exh3-blosum62-gaps%d" % gi)
     # ---- random longer pairs ---------------------------------------------------------------
-    N = 6000 if thorough else 1500
+    N = 15000 if thorough else 1500
     hi = 120 if thorough else 60
     for _ in range(N):
         den = rng.choice([1, 2, 2, 4])
